@@ -233,9 +233,13 @@ def gen_world(rng, tier):
                 # influence later calls
                 n = r.choice([2, 3, 5])
                 hid[0] += 1
-                ops.append({"ev": "call", "g": [r.randrange(2) for _ in range(n)], "dtype": "object",
+                ops.append({"ev": "call", "g": [0] * n if r.random() < 0.5 else [r.randrange(2) for _ in range(n)],
+                            "dtype": "object",
                             "na_mode": "none",
-                            "cols": {"x": {"dtype": "object", "values": [[i, "u"] for i in range(n)]}},
+                            # hashable cells first: the failure happens half-way through a group
+                            "cols": {"x": {"dtype": "object",
+                                           "values": ["a", "a"] + [[i, "u"] for i in range(n - 2)] + ["a"]
+                                           if n > 2 else ["a", [0, "u"]]}},
                             "helpers": [{"name": "y0", "fn": r.choice(["mode", "count_unique", "max", "sum"]),
                                          "col": "x", "kwargs": {}, "id": hid[0], "dtype": "object"}]})
             c = gen_call(r, cfg, hid, pool)
